@@ -1,15 +1,17 @@
 /-
   Driver.C15 — stream `C15`.
 
-  payload  := (hist BOUND OKS RESULTS (event*))  |  (threads BOUND OKS RESULTS ((event*)*))
+  payload  := (hist BOUND OKS RESULTS (event*))  |  (threads BOUND OKS RESULTS ((event*)*) (thread-index*))
   BOUND    := shipped | (MAX CLEAR)         -- `shipped` = the constants generated from the source
   OKS      := (0|1 …)                       -- does expression i compile?
   RESULTS  := ((atom …) …)                  -- RESULTS[i][t] = the solo outcome of expression i on tree t
   event    := (new e) | (ev slot t) | (q e t)
 
   hist     → one `(obs (recent…) (sorted keys…))` per event
-  threads  → one `(obs…)` per thread: what the thread observes when it runs alone from an empty cache,
-             then `(inv 1 1 1 1 1)` (bounds, Nodup, keys = recent, lock free — what C15c proves of every schedule)
+  threads  → the quantum machine (`tstep`/`sysRun`, one cache operation per quantum) under the given schedule
+             and then to completion: one `(obs…)` per thread, then `(inv b b b b 1)` computed on the final cache
+             (bounds, Nodup, keys = recent; the last bit stands for "lock free") — C15c proves these do not
+             depend on the schedule
 -/
 import AHP.Model.Basic
 import AHP.Model.Cache
@@ -62,8 +64,19 @@ def stateSx (o : Obs String) (s : State Nat Nat) : Sexp :=
 def runHist (b : Nat × Nat) (tb : Tables) (evs : List (Event Nat Nat)) : Sexp :=
   .list ((run tb.compile id tb.eval b.1 b.2 World.empty evs).map (fun p => stateSx p.1 p.2))
 
-def runSolo (b : Nat × Nat) (tb : Tables) (evs : List (Event Nat Nat)) : Sexp :=
-  .list ((run tb.compile id tb.eval b.1 b.2 World.empty evs).map (fun p => obsSx p.1))
+/-- Threads under a schedule: run the given schedule on the quantum machine, then let every thread
+    finish (two quanta per event suffice); show what each thread observed and the final invariant. -/
+def runThreads (b : Nat × Nat) (tb : Tables) (ths : List (List (Event Nat Nat))) (sched : List Nat) : Sexp :=
+  let s0 : Sys Nat Nat Nat Nat String := Sys.init ths
+  let s1 := sysRun tb.compile id tb.eval b.1 b.2 s0 sched
+  let rest := (List.range ths.length).flatMap (fun i => List.replicate (2 * (ths.getD i []).length) i)
+  let s2 := sysRun tb.compile id tb.eval b.1 b.2 s1 rest
+  let c := s2.cache
+  let keys := sortNat (dictKeys c.map)
+  let bit (p : Bool) : Sexp := natAtom (if p then 1 else 0)
+  .list (s2.threads.map (fun th => Sexp.list (th.obs.map obsSx)) ++
+    [.list [sym "inv", bit (c.recent.length ≤ b.1), bit (keys.length ≤ b.1),
+            bit (c.recent.eraseDups.length == c.recent.length), bit (sortNat c.recent == keys), natAtom 1]])
 
 def run (payload : String) : String :=
   match Sexp.parse payload with
@@ -71,12 +84,11 @@ def run (payload : String) : String :=
     match toBound b, toTables oks rs, evs.mapM toEvent with
     | some b, some tb, some evs => (runHist b tb evs).render
     | _, _, _ => "bad-case"
-  | some (.list [.atom "threads", b, oks, rs, .list ths]) =>
+  | some (.list [.atom "threads", b, oks, rs, .list ths, .list sched]) =>
     match toBound b, toTables oks rs,
-          ths.mapM (fun th => match th with | .list evs => evs.mapM toEvent | _ => none) with
-    | some b, some tb, some ths =>
-      (Sexp.list (ths.map (runSolo b tb) ++ [.list (sym "inv" :: List.replicate 5 (natAtom 1))])).render
-    | _, _, _ => "bad-case"
+          ths.mapM (fun th => match th with | .list evs => evs.mapM toEvent | _ => none), sched.mapM toNat? with
+    | some b, some tb, some ths, some sched => (runThreads b tb ths sched).render
+    | _, _, _, _ => "bad-case"
   | _ => "bad-case"
 
 end Driver.C15
